@@ -69,7 +69,7 @@ def conv_case(c, name, inject=False, reps=1, pull=False):
 def mk(name, cfg, events, script=(), pull=False, reps=1, src="table"):
     d = {"en": True, "max": 2, "acc": 0, "cmp": 0, "deb": 0, "bof": 0, "hz": 12}
     d.update(cfg)
-    evs = sorted([{"t": t, "code": c, "st": s} for (t, c, s) in events], key=lambda e: e["t"])
+    evs = sorted([dict({"t": e[0], "code": e[1], "st": e[2]}, **({"foreign": True} if len(e) > 3 and e[3] else {})) for e in events], key=lambda e: e["t"])
     return {"case": name, "cfg": d, "unit": 1000000, "pull": pull, "events": evs,
             "script": [{"res": r, "lat": l} for (r, l) in script], "reps": reps, "src": src}
 
@@ -91,6 +91,8 @@ def boundary_cases(thorough):
                              ("Error", "Failing"), ("Cancel", "Cancelled"), ("Shut", ""), ("Restart", ON), ("NewVoucherResult", ON)):
                 add("acc", {"acc": A}, [(A + off, code, st)])
         add("acc", {"acc": A}, [(1, "Accept", ON), (2, "Accept", ON)])
+        add("acc", {"acc": A}, [(1, "Accept", ON, True)])                       # another channel's Accept does not stop the timer
+        add("acc", {"acc": A, "cmp": 2}, [(1, "Complete", "Completed", True), (1, "FinishTransfer", "TransferFinished", True), (2, "SendDataError", ON, True)])
         add("acc", {"acc": A, "cmp": 2}, [(1, "Accept", ON), (2, "FinishTransfer", "TransferFinished")])
         add("acc", {"acc": A, "cmp": A - 1}, [(1, "FinishTransfer", "TransferFinished")])          # both deadlines at the same instant
     add("acc0", {"acc": 0}, [(4, "DataSent", ON)])
@@ -171,6 +173,9 @@ def random_cases(rng, n):
                 continue
             code = rng.choice(["Accept", "SendDataError", "SendDataError", "ReceiveDataError", "ReceiveDataError", "FinishTransfer", "DataSent", "DataReceived",
                                "DataQueued", "NewVoucherResult", "Shut" if rng.random() < 0.15 else "DataSent", "Restart", "PauseResponder"])
+            if rng.random() < 0.08:
+                evs.append((t, rng.choice(["Accept", "SendDataError", "FinishTransfer", "Complete", "DataSent"]), rng.choice(LIVE_ST + FIN_ST), True))
+                continue
             evs.append((t, code, "" if code == "Shut" else rng.choice(LIVE_ST)))
         script = [(rng.choice(["ok", "ok", "fail"]), rng.choice([0, 0, 1, 2, 3, 5, 8])) for _ in range(rng.randint(0, 7))]
         c = mk("rnd-%d" % i, cfg, evs, script, pull=rng.random() < 0.5, src="random")
